@@ -158,6 +158,10 @@ Proof.
   all: repeat match goal with H : (_ && _) = true |- _ => apply andb_true_iff in H; destruct H end.
   all: rewrite ?R_none; try (rewrite R_some by assumption); cbn [fst snd]; try reflexivity.
   all: try (match goal with H : cast_elem_ok ?c ?x = true |- sp_cast_elem ?c _ ?x = _ => exact (cast_elem_ref c num x H) end).
+  all: try (match goal with H : match ?x0 with _ => _ end = true |- match ?x0 with _ => _ end = match ?x0 with _ => _ end =>
+              destruct x0 as [| | | | |fs2 u2| | |]; try discriminate H;
+              repeat match goal with H' : (_ && _) = true |- _ => apply andb_true_iff in H'; destruct H' end;
+              rewrite R_some by assumption; reflexivity end).
   all: apply flat_map_ext_in; intros e He.
   all: repeat match goal with H : forallb _ _ = true |- _ => apply (fun H' => forallb_In _ _ e H' He) in H end.
   all: cbn beta in *.
